@@ -338,6 +338,15 @@ def rule_walker_focus_notifies(ctx: Ctx) -> RuleResult:
         rr.inst(short(fi), True, {"method": short(fi), "modified_calls": len(notes), "on_every_path": ok})
         if not ok:
             rr.add(finding("INV", fi, fi.node, f"{short(fi)}() can store the new focus and return without self._modified(): the ListBox keeps serving the canvas cached for the old focus (same size, same focus flag) - the window is not around the new focus item", construct=f"{cls.name}.set_focus without _modified()"))
+        # a walker that is a MonitoredFocusList also has the public `focus` setter: the only hook that setter calls
+        # is _focus_changed(), so the walker routes it to _modified() (fix 38d0291: `walker.focus = 3` left the
+        # ListBox on its cached canvas)
+        if any(k.name == "MonitoredFocusList" for k in p.mro(cls)):
+            hook = cls.methods.get("_focus_changed")
+            okh = hook is not None and any(isinstance(x, ast.Call) and isinstance(x.func, ast.Attribute) and x.func.attr == "_modified" for x in hook.own_nodes())
+            rr.inst(f"{cls.name}._focus_changed", True, {"class": cls.name, "focus_setter_hook_notifies": okh})
+            if not okh:
+                rr.add(finding("INV", fi, cls.node, f"{cls.name} inherits the `focus` setter of MonitoredFocusList but does not route its _focus_changed() hook to _modified(): `walker.focus = n` moves the focus without the 'modified' signal, the ListBox keeps its cached canvas", construct=f"{cls.name}: focus assignment without _modified()"))
     return rr
 
 
@@ -398,6 +407,7 @@ from ..mutants import Mut  # noqa: E402
 
 _L = "urwid/widget/listbox.py"
 MUTANTS = [
+    Mut("focus-walker-assignment-silent", _L, "SimpleFocusListWalker._focus_changed", "        self._modified()\n", "        pass\n", "INV|widget.listbox.SimpleFocusListWalker.set_focus|SimpleFocusListWalker: focus assignment without _modified()"),
     Mut("listbox-mouse-layout-as-if-focused", _L, "ListBox.mouse_event", "self.calculate_visible((maxcol, maxrow), focus=focus)", "self.calculate_visible((maxcol, maxrow), focus=True)", "FLAG-FWD|widget.listbox.ListBox.mouse_event|mouse_event: calculate_visible with a constant focus flag"),
     Mut("page-down-tries-candidate-off-the-top", _L, "ListBox._keypress_page_down", "            if row_offset + rows <= 0:\n                # scrolled off the top edge entirely: not on the new page\n                continue\n", "", "GUARD|widget.listbox.ListBox._keypress_page_down|_keypress_page_down: candidate offset row_offset not shown on the page"),
     Mut("page-down-fallback-tries-candidate-off-the-top", _L, "ListBox._keypress_page_down", "            if row_offset + rows <= 0:  # nor one that is off the top edge entirely\n                continue\n", "", "GUARD|widget.listbox.ListBox._keypress_page_down|_keypress_page_down: candidate offset row_offset not shown on the page"),
